@@ -306,8 +306,12 @@ def check_index_classes(idx: Index, rep: Report) -> None:
             txts = [unparse(t) + (":T" if p else ":F") for t, p in facts]
             neg_guard = any(re.search(rf"\b{ixn} < 0:F|\b{ixn} >= 0:T|0 <= {ixn}\b.*:T", x) for x in txts)
             normalised = any(isinstance(s, ast.Assign) and unparse(s.targets[0]) == ixn and "len(" in unparse(s.value) for s in walk_local(f.node)) or any(isinstance(s, ast.AugAssign) and unparse(s.target) == ixn and "len(" in unparse(s.value) for s in walk_local(f.node))
-            if neg_guard or normalised:
-                r.ok(f.fq, f"{f.loc} negative index rejected/normalised before the slice rebuild")
+            # a normalisation `i += len(xs)` alone is not enough (i = -len-1 stays negative): a rejection of negative
+            # indices must hold at the rebuild, and it must be tested after the last assignment to the index
+            last_assign = max([s.lineno for s in walk_local(f.node) if (isinstance(s, ast.Assign) and unparse(s.targets[0]) == ixn) or (isinstance(s, ast.AugAssign) and unparse(s.target) == ixn)] + [0])
+            guard_lines = [t.lineno for t, p in facts if re.search(rf"\b{ixn} < 0|\b{ixn} >= 0|0 <= {ixn}\b", unparse(t))]
+            if neg_guard and all(g > last_assign for g in guard_lines):
+                r.ok(f.fq, f"{f.loc} negative index {'normalised and ' if normalised else ''}rejected before the slice rebuild")
             else:
                 r.fail(f.fq, Finding("C01.R5", f.fq, "negative-index", f"`{unparse(n)[:100]}`: for {ixn} = -1 the element access uses the last position but xs[:{ixn}] + [v] + xs[{ixn}+1:] = xs[:-1] + [v] + xs[0:]: the rebuilt tuple has 2n-1 entries for n uses", f"{f.module.relpath}:{n.lineno}"))
     # insert_arg / erase_arg / replace_value_with_new_type
